@@ -167,6 +167,11 @@ class ManWorld:
         self.sim.sim._do_rferr = ph.mode == "rferr"
         if ph.mode == "absent":
             self.mode = "blackout"
+        # "down": the interface is down - every send fails with an OS error that asyncio reports
+        # to the protocol's error_received(), nothing is delivered either way
+        self.w.net.send_error = OSError(101, "Network is unreachable") if ph.mode == "down" else None
+        if ph.mode == "down":
+            self.mode = "blackout"
         self.phase_log.append((self.w.now, ph.mode, ph.p))
         if ph.mode == "healthy":
             self.healthy_since = self.w.now
